@@ -391,6 +391,7 @@ def _create_parsing_expression(tree):
                 impl_name = ex.implementation_name(op.field)
                 result = ex.Ref(f'super.{op.field}')
                 result._resolved = f'_super_ctx.{impl_name}'
+                result.is_static = True
                 return result
 
         if isinstance(op, parser.Repeat):
